@@ -452,3 +452,12 @@ Example c20_interleave_example :
   let m i := {| m_id := i; m_pres := POk 0 |} in
   interleave [m 1; m 2] [m 3] [m 1; m 3; m 2].
 Proof. repeat constructor. Qed.
+
+(* the hypotheses of [exactly_one_outcome] / [concurrent_senders] are satisfiable on a non-trivial script *)
+Example c20_one_outcome_example :
+  let c := {| ret_succ := true; ret_err := true |} in
+  let es := [ {| e_res := RSucc; e_chk := CFail 7 |}; {| e_res := RFail 9; e_chk := CNone |}; {| e_res := RSucc; e_chk := CPass |} ] in
+  let ms := [ {| m_id := 1; m_pres := POk 3 |}; {| m_id := 2; m_pres := PErr 5 |}; {| m_id := 3; m_pres := POk 1 |} ] in
+  all_visible c /\ (length ms <= length es)%nat /\ NoDup (map m_id ms) /\
+  map (fun id => outcomes_of id (async_history c es ms)) [1; 2; 3; 4] = [1; 1; 1; 0]%nat.
+Proof. cbn. repeat split; auto. repeat constructor; cbn; intuition lia. Qed.
